@@ -141,6 +141,22 @@ Proof.
 Qed.
 Print Assumptions C16_exact_entity_categories.
 
+Theorem C16_exact_supported_categories :
+  forall st eid l, store_supported_categories st eid = Ok l ->
+    l = match store_get st eid with
+        | None => []
+        | Some e => vals_of EC_SUPPORT (List.concat (e_eattrs e))
+        end.
+Proof.
+  intros st eid l. unfold store_supported_categories.
+  destruct (store_entity_attributes st eid) as [res|x] eqn:E; [|discriminate].
+  intros H; injection H as <-. rewrite (entity_attributes_exact _ _ _ E EC_SUPPORT).
+  destruct (store_get st eid) as [e|]; [|reflexivity].
+  destruct (hits EC_SUPPORT (List.concat (e_eattrs e))) eqn:Eh; [reflexivity|].
+  unfold vals_of. unfold hits in Eh. now rewrite (filter_none _ _ Eh).
+Qed.
+Print Assumptions C16_exact_supported_categories.
+
 Theorem C16_exact_attribute_requirement :
   forall st eid index req opt, store_attribute_requirement st eid index = Some (req, opt) ->
     exists e, store_get st eid = Some e /\
@@ -176,6 +192,28 @@ Proof.
   pose proof (store_get_char st eid) as C. rewrite H in C. unfold has_role. now rewrite (C km Hin).
 Qed.
 Print Assumptions C16_unknown_entity.
+
+(* the typed wrappers ask service() for their own role type / service and, when
+   no binding is given, their default binding - so (1) and (2) carry over to
+   single_sign_on_service, assertion_consumer_service, ... *)
+Theorem C16_wrappers_are_service :
+  forall st eid b,
+    store_wrapper st W_SSO eid b None = store_service st eid T_IDP S_SSO (match b with Some x => x | None => B_REDIRECT end) /\
+    store_wrapper st W_ACS eid b None = store_service st eid T_SP S_ACS (match b with Some x => x | None => B_POST end) /\
+    store_wrapper st W_ATTR eid b None = store_service st eid T_AA S_ATTR (match b with Some x => x | None => B_REDIRECT end) /\
+    store_wrapper st W_AUTHZ eid b None = store_service st eid T_PDP S_AUTHZ (match b with Some x => x | None => B_SOAP end) /\
+    (forall t, store_wrapper st W_SLO eid b (Some t) =
+               store_service st eid (descr_key t) S_SLO (match b with Some x => x | None => B_REDIRECT end)) /\
+    (forall t, store_wrapper st W_ARS eid b (Some t) =
+               store_service st eid (descr_key t) S_ARS (match b with Some x => x | None => B_REDIRECT end)) /\
+    (forall t, store_wrapper st W_AIDR eid b (Some t) =
+               store_service st eid (descr_key t) S_AIDR (match b with Some x => x | None => B_SOAP end)) /\
+    (forall w t t', In w [W_SSO; W_ACS; W_ATTR; W_AUTHZ] -> store_wrapper st w eid b t = store_wrapper st w eid b t').
+Proof.
+  intros st eid b. repeat split; try reflexivity.
+  intros w t t' Hw. cbn [In] in Hw. destruct Hw as [<-|[<-|[<-|[<-|[]]]]]; reflexivity.
+Qed.
+Print Assumptions C16_wrappers_are_service.
 
 (* ---- (3) expired entities / documents are never served --------------------- *)
 Theorem C16_expired_never_served :
